@@ -361,6 +361,12 @@ def _make_wrapped(scn, cands):
     if scn["mode"] == "amorph":
         from hexital.indicators import Amorph
 
+        if scn.get("shared_args") and "length" in kw:
+            # the user's ONE args dict serves two wrappers; the sibling, built first, also gets a loose `length` keyword.  The library
+            # must copy, not keep (or write into) the caller's dict: the observed wrapper runs with ITS length
+            shared = {k: v for k, v in kw.items() if k != "length"}
+            Amorph(analysis=f, candles=[], args=shared, length=int(kw["length"]) + 3)
+            return Amorph(analysis=f, candles=cands, args=shared, length=kw["length"])
         if scn.get("use_args"):
             return Amorph(analysis=f, candles=cands, args=kw)
         return Amorph(analysis=f, candles=cands, **kw)
@@ -418,6 +424,22 @@ def check_wrapped(scn):
         j = bad[0]
         return {f"{mode}-live-vs-batch": {"index": j, "observed": {"batch": col_b[max(0, j - 2) : j + 3], "live": col_l[max(0, j - 2) : j + 3]},
                                          "expected": "same column"}}, stats
+    if scn.get("shared_args") and mode == "amorph" and "length" in scn.get("kwargs", {}):
+        # the wrapper must run with the arguments IT was given: its column is the bare function at every index
+        f = funcs()[scn["fn"]]
+        cs = build(scn)
+        kw = dict(scn.get("kwargs", {}))
+        for j in range(len(cs)):
+            r = _call(f, cs, kw, j)
+            if r[0] == "exc":
+                break
+            want = r[1]
+            if isinstance(want, float):
+                from hexital.utils.indexing import round_values
+
+                want = round_values(want, round_by=4)   # the wrapper rounds its reading (default round_value)
+            if j < len(col_b) and not _same(("ok", col_b[j]), ("ok", want)):
+                return {"amorph-vs-function": {"index": j, "observed": col_b[j], "expected": want, "note": "a sibling wrapper was built from the same args dict first"}}, stats
     return {}, stats
 
 
@@ -542,6 +564,8 @@ def case_c16_wrapped(rng, idx, params):
     (init, chunks), shape = gen.gen_schedule(rng, n, rng.choice(["empty1", "empty1", "one1", "singles", "random", "few"]))
     scn = {"mode": mode, "fn": fn, "kwargs": kw, "stream": stream, "readings": readings, "init": init, "chunks": chunks,
            "use_args": rng.random() < 0.4}
+    if mode == "amorph" and rng.random() < 0.25:
+        scn["shared_args"] = True
     if mode == "hexital":
         scn["callable"] = fn in TWO_NOLEN or rng.random() < 0.2  # above/below are not in the maps: only the callable form exists
         if (fn in ONE or fn in TWO_NOLEN) and rng.random() < 0.3:
